@@ -178,7 +178,7 @@ Qed.
 
 Lemma order_for_In m a b l x :
   order_for m a b = Some l ->
-  (In x l <-> match m with Union => In x a \/ In x b | Inter => In x a /\ In x b | BadMode => False end).
+  (In x l <-> pair_ids m a b x).
 Proof.
   destruct m; simpl; intros H; inversion H; subst.
   - apply union_order_In.
@@ -339,8 +339,6 @@ Proof.
   rewrite (merged_md_at f ax a b idl k Lk). rewrite Nk. reflexivity.
 Qed.
 
-Definition axis_mode (ax : axis) (sm om : mode) : mode := match ax with Obs => om | Samp => sm end.
-Definition axis_f {A} (ax : axis) (f_s f_o : A) : A := match ax with Obs => f_o | Samp => f_s end.
 
 (* the property, for one pairwise merge through the general path *)
 Theorem merge_general_spec_proof a b sm om fs fo r :
@@ -683,4 +681,310 @@ Proof.
     rewrite Forall_forall in W.
     apply (remap_esum fo so t o s (W t Ht) (Io t Ht) (Is t Ht) Ho Hs).
   - simpl. repeat split; reflexivity.
+Qed.
+
+(* ================================================================ the entry point *)
+Lemma no_md_spec t : no_md t = true <-> omd t = None /\ smd t = None.
+Proof.
+  unfold no_md. destruct (omd t), (smd t); split; try discriminate; try tauto;
+    intros [A B]; discriminate.
+Qed.
+
+Lemma fast_ok_inv ts sm om fs fo :
+  fast_ok ts sm om fs fo = true ->
+  sm = Union /\ om = Union /\ (forallb no_md ts = true \/ (fs = None /\ fo = None)).
+Proof.
+  unfold fast_ok. intros F. apply andb_true_iff in F. destruct F as [F Fo].
+  apply andb_true_iff in F. destruct F as [F Fs].
+  destruct sm; try discriminate. destruct om; try discriminate.
+  split; [reflexivity|]. split; [reflexivity|].
+  apply orb_true_iff in F. destruct F as [F|F]; [left; exact F|right].
+  apply andb_true_iff in F. destruct F as [A B]. destruct fs; [discriminate|]. destruct fo; [discriminate|].
+  split; reflexivity.
+Qed.
+
+Lemma cell_none t o s : ~ In o (oids t) \/ ~ In s (sids t) -> cell t o s = None.
+Proof.
+  intros [H|H]; apply pos_None in H; unfold cell; rewrite H; [reflexivity|].
+  destruct (pos o (oids t)); reflexivity.
+Qed.
+
+Lemma md_of_no_md ax t x : mds ax t = None -> md_of ax t x = None.
+Proof. intros H. unfold md_of, md_at. rewrite H. destruct (pos x (ids ax t)); reflexivity. Qed.
+
+(* one pairwise step, whichever path it takes *)
+Lemma merge_pair_spec sm om fs fo a b r :
+  wf a -> wf b -> merge_pair sm om fs fo a b = ROk r ->
+  wf r /\
+  (forall x, In x (sids r) <-> pair_ids sm (sids a) (sids b) x) /\
+  (forall x, In x (oids r) <-> pair_ids om (oids a) (oids b) x) /\
+  (forall o s, In o (oids r) -> In s (sids r) -> cell r o s = Some (cell0 a o s + cell0 b o s)%Z).
+Proof.
+  intros Wa Wb. unfold merge_pair. destruct (fast_ok [a; b] sm om fs fo) eqn:F.
+  - intros H. inversion H; subst; clear H.
+    destruct (fast_ok_inv _ _ _ _ _ F) as (-> & -> & _).
+    destruct (fast_merge_spec_proof [a; b] (Forall_cons _ Wa (Forall_cons _ Wb (Forall_nil _))))
+      as (W & _ & _ & Hid & Hc & _).
+    split; [exact W|]. split; [|split].
+    + intros x. rewrite (Hid Samp x). unfold in_some, pair_ids. simpl. split.
+      * intros [t [[<-|[<-|[]]] Hx]]; auto.
+      * intros [H|H]; [exists a|exists b]; auto.
+    + intros x. rewrite (Hid Obs x). unfold in_some, pair_ids. simpl. split.
+      * intros [t [[<-|[<-|[]]] Hx]]; auto.
+      * intros [H|H]; [exists a|exists b]; auto.
+    + intros o s Ho Hs. rewrite (Hc o s Ho Hs). unfold cell_sum. simpl. f_equal. lia.
+  - intros H. destruct (merge_general_spec_proof _ _ _ _ _ _ _ Wa Wb H) as (Es & Eo & Hc & _ & _ & W).
+    split; [exact W|]. split; [|split].
+    + intros x. apply (order_for_In _ _ _ _ x Es).
+    + intros x. apply (order_for_In _ _ _ _ x Eo).
+    + exact Hc.
+Qed.
+
+Definition Inv (sm om : mode) (ts : list table) (m : table) : Prop :=
+  wf m /\ (forall x, In x (sids m) <-> id_set sm Samp ts x) /\
+  (forall x, In x (oids m) <-> id_set om Obs ts x) /\
+  (forall o s, In o (oids m) -> In s (sids m) -> cell m o s = Some (cell_sum ts o s)).
+
+Lemma id_set_snoc m ax ts t x :
+  id_set m ax (ts ++ [t]) x <->
+  match m with
+  | Union => id_set Union ax ts x \/ In x (ids ax t)
+  | Inter => id_set Inter ax ts x /\ In x (ids ax t)
+  | BadMode => False
+  end.
+Proof.
+  destruct m; simpl; [| |tauto].
+  - unfold in_some. split.
+    + intros [u [Hu Hx]]. apply in_app_iff in Hu. destruct Hu as [Hu|[<-|[]]]; [left; exists u; auto|right; exact Hx].
+    + intros [[u [Hu Hx]]|Hx]; [exists u|exists t]; split; auto; apply in_app_iff; [left|right; left]; auto.
+  - unfold in_all. split.
+    + intros H. split; [intros u Hu; apply H, in_app_iff; left; exact Hu|apply H, in_app_iff; right; left; reflexivity].
+    + intros [H Hx] u Hu. apply in_app_iff in Hu. destruct Hu as [Hu|[<-|[]]]; [apply H; exact Hu|exact Hx].
+Qed.
+
+Lemma cell_sum_snoc ts t o s : cell_sum (ts ++ [t]) o s = (cell_sum ts o s + cell0 t o s)%Z.
+Proof. unfold cell_sum. rewrite map_app, zsum_app. simpl. lia. Qed.
+
+Lemma cell_sum_zero ts o s :
+  (forall t, In t ts -> ~ In o (oids t) \/ ~ In s (sids t)) -> cell_sum ts o s = 0%Z.
+Proof.
+  intros H. unfold cell_sum. apply zsum_map_zero. intros t Ht.
+  destruct (H t Ht) as [A|A]; [apply cell0_no_obs|apply cell0_no_samp]; exact A.
+Qed.
+
+Lemma inv_step sm om fs fo ts m other r :
+  Inv sm om ts m -> wf other -> merge_pair sm om fs fo m other = ROk r -> Inv sm om (ts ++ [other]) r.
+Proof.
+  intros (Wm & Is & Io & Ic) Wo H.
+  destruct (merge_pair_spec _ _ _ _ _ _ _ Wm Wo H) as (Wr & Ps & Po & Pc).
+  split; [exact Wr|]. split; [|split].
+  - intros x. rewrite (Ps x), id_set_snoc. specialize (Is x). unfold pair_ids. destruct sm; simpl in *; tauto.
+  - intros x. rewrite (Po x), id_set_snoc. specialize (Io x). unfold pair_ids. destruct om; simpl in *; tauto.
+  - intros o s Ho Hs. rewrite (Pc o s Ho Hs). f_equal. rewrite cell_sum_snoc. f_equal.
+    destruct (in_dec Z.eq_dec o (oids m)) as [Hom|Hom]; destruct (in_dec Z.eq_dec s (sids m)) as [Hsm|Hsm].
+    + apply cell_cell0, Ic; assumption.
+    + rewrite (cell0_no_samp m o s Hsm). symmetry. apply cell_sum_zero. intros t Ht. right. intros Hin.
+      apply (Ps s) in Hs. specialize (Is s). unfold pair_ids in Hs. destruct sm; simpl in *.
+      * apply Hsm, Is. exists t. split; assumption.
+      * destruct Hs as [A _]. contradiction.
+      * exact Hs.
+    + rewrite (cell0_no_obs m o s Hom). symmetry. apply cell_sum_zero. intros t Ht. left. intros Hin.
+      apply (Po o) in Ho. specialize (Io o). unfold pair_ids in Ho. destruct om; simpl in *.
+      * apply Hom, Io. exists t. split; assumption.
+      * destruct Ho as [A _]. contradiction.
+      * exact Ho.
+    + rewrite (cell0_no_obs m o s Hom). symmetry. apply cell_sum_zero. intros t Ht. left. intros Hin.
+      apply (Po o) in Ho. specialize (Io o). unfold pair_ids in Ho. destruct om; simpl in *.
+      * apply Hom, Io. exists t. split; assumption.
+      * destruct Ho as [A _]. contradiction.
+      * exact Ho.
+Qed.
+
+Lemma fold_err sm om fs fo l c : fold_left (pair_step sm om fs fo) l (RErr c) = RErr c.
+Proof. induction l as [|x l IH]; [reflexivity|exact IH]. Qed.
+
+Lemma inv_fold sm om fs fo others : forall ts m r,
+  Inv sm om ts m -> Forall wf others ->
+  fold_left (pair_step sm om fs fo) others (ROk m) = ROk r -> Inv sm om (ts ++ others) r.
+Proof.
+  induction others as [|o others IH]; intros ts m r HI W H.
+  - inversion H; subst. rewrite app_nil_r. exact HI.
+  - inversion W as [|? ? Wo Wr]; subst. cbn [fold_left pair_step] in H.
+    destruct (merge_pair sm om fs fo m o) as [m'|c] eqn:E.
+    + replace (ts ++ o :: others) with ((ts ++ [o]) ++ others) by (rewrite <- app_assoc; reflexivity).
+      apply (IH (ts ++ [o]) m' r); [eapply inv_step; eassumption|exact Wr|exact H].
+    + rewrite fold_err in H. discriminate.
+Qed.
+
+Lemma inv_init sm om self : wf self -> sm <> BadMode -> om <> BadMode -> Inv sm om [self] self.
+Proof.
+  intros W Hs Ho. split; [exact W|]. split; [|split].
+  - intros x. destruct sm; simpl; [| |congruence].
+    + unfold in_some. split; [intros H; exists self; split; [left; reflexivity|exact H]|].
+      intros [t [[<-|[]] H]]. exact H.
+    + unfold in_all. split; [intros H t [<-|[]]; exact H|intros H; apply (H self); left; reflexivity].
+  - intros x. destruct om; simpl; [| |congruence].
+    + unfold in_some. split; [intros H; exists self; split; [left; reflexivity|exact H]|].
+      intros [t [[<-|[]] H]]. exact H.
+    + unfold in_all. split; [intros H t [<-|[]]; exact H|intros H; apply (H self); left; reflexivity].
+  - intros o s Hoo Hss. rewrite (cell_in self o s Hoo Hss). unfold cell_sum. simpl. f_equal. lia.
+Qed.
+
+(* when the fast path is not taken the entry point is the pairwise fold (a single other included) *)
+Lemma dispatch_unfold self others sm om fs fo :
+  fast_ok (self :: others) sm om fs fo = false ->
+  merge_dispatch self others sm om fs fo = fold_left (pair_step sm om fs fo) others (ROk self).
+Proof.
+  intros F. unfold merge_dispatch. rewrite F. destruct others as [|o [|o2 rest]]; try reflexivity.
+  cbn [fold_left pair_step]. unfold merge_pair. rewrite F. reflexivity.
+Qed.
+
+Lemma dispatch_single self other sm om fs fo :
+  fast_ok [self; other] sm om fs fo = false ->
+  merge_dispatch self [other] sm om fs fo = merge_general self other sm om fs fo.
+Proof. intros F. unfold merge_dispatch. rewrite F. reflexivity. Qed.
+
+Theorem merge_dispatch_spec_proof self others sm om fs fo r :
+  wf self -> Forall wf others -> sm <> BadMode -> om <> BadMode ->
+  merge_dispatch self others sm om fs fo = ROk r ->
+  let ts := self :: others in
+  wf r /\
+  (forall x, In x (sids r) <-> id_set sm Samp ts x) /\
+  (forall x, In x (oids r) <-> id_set om Obs ts x) /\
+  (forall o s, In o (oids r) -> In s (sids r) -> cell r o s = Some (cell_sum ts o s)) /\
+  (sm = Union -> om = Union -> total r = zsum (map total ts)) /\
+  (fast_ok ts sm om fs fo = true ->
+     r = fast_merge ts /\ omd r = None /\ smd r = None /\
+     ((forall t, In t ts -> omd t = None /\ smd t = None) \/ (fs = None /\ fo = None))) /\
+  (fast_ok ts sm om fs fo = false ->
+     fold_left (pair_step sm om fs fo) others (ROk self) = ROk r /\
+     forall other, others = [other] ->
+       exists f_s f_o, fs = Some f_s /\ fo = Some f_o /\
+         order_for sm (sids self) (sids other) = Some (sids r) /\
+         order_for om (oids self) (oids other) = Some (oids r) /\
+         forall ax i, In i (ids ax r) ->
+           md_norm (md_of ax r i) = md_norm (axis_f ax f_s f_o (md_of ax self i) (md_of ax other i))).
+Proof.
+  intros Ws Wo Hsm Hom H ts.
+  assert (Wts : Forall wf ts) by (constructor; assumption).
+  assert (Core : wf r /\ (forall x, In x (sids r) <-> id_set sm Samp ts x) /\
+                 (forall x, In x (oids r) <-> id_set om Obs ts x) /\
+                 (forall o s, In o (oids r) -> In s (sids r) -> cell r o s = Some (cell_sum ts o s))).
+  { destruct (fast_ok ts sm om fs fo) eqn:F.
+    - unfold merge_dispatch in H. fold ts in H. rewrite F in H. inversion H; subst r; clear H.
+      destruct (fast_ok_inv _ _ _ _ _ F) as (-> & -> & _).
+      destruct (fast_merge_spec_proof ts Wts) as (W & _ & _ & Hid & Hc & _).
+      split; [exact W|]. split; [intros x; apply (Hid Samp x)|]. split; [intros x; apply (Hid Obs x)|exact Hc].
+    - rewrite (dispatch_unfold _ _ _ _ _ _ F) in H.
+      apply (inv_fold sm om fs fo others [self] self r (inv_init sm om self Ws Hsm Hom) Wo H). }
+  destruct Core as (Wr & Is & Io & Ic).
+  split; [exact Wr|]. split; [exact Is|]. split; [exact Io|]. split; [exact Ic|]. split; [|split].
+  - intros -> ->. apply total_of_cells; try assumption.
+    intros t Ht. split; intros x Hx.
+    + apply Io. exists t. split; assumption.
+    + apply Is. exists t. split; assumption.
+  - intros F. unfold merge_dispatch in H. fold ts in H. rewrite F in H. inversion H; subst r; clear H.
+    split; [reflexivity|]. split; [reflexivity|]. split; [reflexivity|].
+    destruct (fast_ok_inv _ _ _ _ _ F) as (_ & _ & [A|A]); [left|right; exact A].
+    intros t Ht. rewrite forallb_forall in A. apply no_md_spec. apply A. exact Ht.
+  - intros F. split; [rewrite <- (dispatch_unfold _ _ _ _ _ _ F); exact H|].
+    intros other ->. rewrite (dispatch_single _ _ _ _ _ _ F) in H.
+    inversion Wo as [|? ? Wother _]; subst.
+    destruct (merge_general_spec_proof _ _ _ _ _ _ _ Ws Wother H) as (Es & Eo & _ & (f_s & f_o & A & B & C) & _).
+    exists f_s, f_o. repeat (split; [assumption|]). exact C.
+Qed.
+
+Theorem merge_dispatch_bad_mode self others sm om fs fo :
+  sm = BadMode \/ om = BadMode -> others <> [] ->
+  merge_dispatch self others sm om fs fo = RErr E_TABLE.
+Proof.
+  intros Hb Hne.
+  assert (F : forall ts, fast_ok ts sm om fs fo = false).
+  { intros ts. unfold fast_ok. destruct Hb as [-> | ->]; simpl.
+    - rewrite andb_false_r. reflexivity.
+    - apply andb_false_r. }
+  rewrite (dispatch_unfold _ _ _ _ _ _ (F _)). destruct others as [|o rest]; [congruence|].
+  cbn [fold_left pair_step]. unfold merge_pair. rewrite F.
+  rewrite merge_general_empty_refused by (right; right; exact Hb). apply fold_err.
+Qed.
+
+(* the two paths agree: same id sets, same cells, same totals; and the same (absent) metadata when
+   neither operand has any and the functions do not create metadata out of nothing *)
+Theorem fast_general_agree_proof a b f_s f_o rg :
+  wf a -> wf b ->
+  merge_general a b Union Union (Some f_s) (Some f_o) = ROk rg ->
+  let rf := fast_merge [a; b] in
+  (forall ax x, In x (ids ax rf) <-> In x (ids ax rg)) /\
+  (forall o s, cell rf o s = cell rg o s) /\
+  total rf = total rg /\
+  (no_md a = true -> no_md b = true -> f_s None None = None -> f_o None None = None ->
+   forall ax x, md_norm (md_of ax rf x) = None /\ md_norm (md_of ax rg x) = None).
+Proof.
+  intros Wa Wb H rf.
+  assert (Wab : Forall wf [a; b]) by (constructor; [exact Wa|constructor; [exact Wb|constructor]]).
+  destruct (fast_merge_spec_proof [a; b] Wab) as (Wf & _ & _ & Hid & Hc & Mo & Ms & _). fold rf in Wf, Hid, Hc, Mo, Ms.
+  destruct (merge_general_spec_proof _ _ _ _ _ _ _ Wa Wb H) as (Es & Eo & Gc & (g_s & g_o & Egs & Ego & Gm) & _ & Wg).
+  inversion Egs; subst g_s. inversion Ego; subst g_o.
+  assert (IdS : forall x, In x (sids rf) <-> In x (sids rg)).
+  { intros x. rewrite (Hid Samp x). rewrite (order_for_In _ _ _ _ x Es). unfold in_some, pair_ids. simpl. split.
+    - intros [t [[<-|[<-|[]]] Hx]]; auto.
+    - intros [Hx|Hx]; [exists a|exists b]; auto. }
+  assert (IdO : forall x, In x (oids rf) <-> In x (oids rg)).
+  { intros x. rewrite (Hid Obs x). rewrite (order_for_In _ _ _ _ x Eo). unfold in_some, pair_ids. simpl. split.
+    - intros [t [[<-|[<-|[]]] Hx]]; auto.
+    - intros [Hx|Hx]; [exists a|exists b]; auto. }
+  assert (Cells : forall o s, cell rf o s = cell rg o s).
+  { intros o s.
+    destruct (in_dec Z.eq_dec o (oids rf)) as [Ho|Ho]; [destruct (in_dec Z.eq_dec s (sids rf)) as [Hs|Hs]|].
+    - rewrite (Hc o s Ho Hs). rewrite (Gc o s (proj1 (IdO o) Ho) (proj1 (IdS s) Hs)).
+      unfold cell_sum. simpl. f_equal. lia.
+    - rewrite (cell_none rf o s) by (right; exact Hs).
+      rewrite (cell_none rg o s) by (right; intros Hin; apply Hs, IdS; exact Hin). reflexivity.
+    - rewrite (cell_none rf o s) by (left; exact Ho).
+      rewrite (cell_none rg o s) by (left; intros Hin; apply Ho, IdO; exact Hin). reflexivity. }
+  split; [intros ax x; destruct ax; [apply IdO|apply IdS]|]. split; [exact Cells|]. split.
+  - assert (Tf : total rf = zsum (map total [a; b])).
+    { apply total_of_cells; try assumption. intros t Ht. split; intros x Hx.
+      - apply (Hid Obs). exists t. split; assumption.
+      - apply (Hid Samp). exists t. split; assumption. }
+    assert (Tg : total rg = zsum (map total [a; b])).
+    { apply total_of_cells; try assumption.
+      - intros t Ht. split; intros x Hx.
+        + apply IdO, (Hid Obs). exists t. split; assumption.
+        + apply IdS, (Hid Samp). exists t. split; assumption.
+      - intros o s Ho Hs. rewrite (Gc o s Ho Hs). unfold cell_sum. simpl. f_equal. lia. }
+    rewrite Tf, Tg. reflexivity.
+  - intros Na Nb Fs Fo ax x.
+    apply no_md_spec in Na. apply no_md_spec in Nb. destruct Na as [Nao Nas]. destruct Nb as [Nbo Nbs].
+    assert (Ma : md_of ax a x = None) by (apply md_of_no_md; destruct ax; assumption).
+    assert (Mb : md_of ax b x = None) by (apply md_of_no_md; destruct ax; assumption).
+    split.
+    + rewrite md_of_no_md; [reflexivity|]. destruct ax; assumption.
+    + destruct (in_dec Z.eq_dec x (ids ax rg)) as [Hin|Hn].
+      * rewrite (Gm ax x Hin), Ma, Mb. destruct ax; simpl; [rewrite Fo|rewrite Fs]; reflexivity.
+      * unfold md_of. apply pos_None in Hn. rewrite Hn. reflexivity.
+Qed.
+
+Theorem merge_total_proof a b fs fo r :
+  wf a -> wf b -> merge_general a b Union Union fs fo = ROk r -> total r = (total a + total b)%Z.
+Proof.
+  intros Wa Wb H.
+  destruct (merge_general_spec_proof _ _ _ _ _ _ _ Wa Wb H) as (Es & Eo & Gc & _ & _ & Wg).
+  rewrite (total_of_cells r [a; b]).
+  - simpl. lia.
+  - exact Wg.
+  - constructor; [exact Wa|constructor; [exact Wb|constructor]].
+  - intros t Ht. split; intros x Hx.
+    + apply (order_for_In _ _ _ _ x Eo). simpl. destruct Ht as [<-|[<-|[]]]; auto.
+    + apply (order_for_In _ _ _ _ x Es). simpl. destruct Ht as [<-|[<-|[]]]; auto.
+  - intros o s Ho Hs. rewrite (Gc o s Ho Hs). unfold cell_sum. simpl. f_equal. lia.
+Qed.
+
+Theorem fast_merge_total_proof ts : Forall wf ts -> total (fast_merge ts) = zsum (map total ts).
+Proof.
+  intros W. destruct (fast_merge_spec_proof ts W) as (Wf & _ & _ & Hid & Hc & _).
+  apply total_of_cells; try assumption.
+  intros t Ht. split; intros x Hx.
+  - apply (Hid Obs). exists t. split; assumption.
+  - apply (Hid Samp). exists t. split; assumption.
 Qed.
